@@ -46,9 +46,19 @@ MANIFEST = {
             "infer_rule_order_independent (any permutation of the rule set gives the same counter, table and judgement sets, no "
             "renaming needed: only one rule allocates, none reads the inference sets); both are also evaluated on the real "
             "register / InferenceRules::infer with permuted value lists and with the rule set walked sorted, reversed, seeded and in "
-            "its own hash order (TcCases.check_order, check_rules_perm, check_rule_order). Not proved: the composition of these "
-            "stage theorems across the renaming (the back-half theorems fix the judgement set), the order of value collection, and "
-            "order independence up to renaming of fresh variables for packed encodings outside the known classes (partial).",
+            "its own hash order (TcCases.check_order, check_rules_perm, check_rule_order). The stage theorems are COMPOSED across the "
+            "renaming in props/C02_e2e.v (proofs/PipelineRename.v, PipelineE2E.v): pipeline_value_and_rule_order_independent -- for "
+            "ANY permutation of the lifted values handed to assign_vars, any two permutations of the rule set, any two hook records "
+            "and slot orders of the back half, if the judgement set of ONE run lies in order_fragment (and rounds >= |vars| + 2) the "
+            "two runs return the same rows or both fail, and the other run's judgement set lies in the fragment too (order_fragment "
+            "is invariant under a bijective renaming of the type variables; the back half is invariant under it because its result "
+            "on the fragment is characterised by the congruence closure, which commutes with the renaming; abi_type_for on the "
+            "renamed class table returns the same AbiType); pipeline_collection_order_independent adds the lifting (a permuted "
+            "collection of values, every keccak / table), pipeline_sorted_vs_mode compares Pipeline.analyze_plain under MSorted with "
+            "a run whose collection, rule, unification and layout orders follow any mode. Not proved: the visiting order of the "
+            "values INSIDE infer (the registration theorems cover infer_all = registration order; another order renames the mapping "
+            "rule's fresh variables), and order independence up to renaming of fresh variables for packed encodings outside the known "
+            "classes (partial).",
     "note": "Trusted: Coq kernel; hooks H1/H2 (guarded, add-only); harness. Natural-order nondeterminism is sampled, forced orders are "
             "deterministic and replayable.",
     "technique": "forced-iteration-order differential search on the real code (hook H1) + Coq classification of order dependences by "
@@ -72,6 +82,7 @@ def check(ctx):
     vlib.prove(ctx, "props/C02_unify.v")   # the unification stage: order independence on the order-free fragment
     vlib.prove(ctx, "props/C02_register.v", ["TcCases.vo"])   # registration and rule stages: order of values / of rules
     vlib.prove(ctx, "props/C02_pipeline.v", ["OrderPipelineCases.vo"])   # unify + layout loop on the composed model
+    vlib.prove(ctx, "props/C02_e2e.v")   # registration / rule / unification / layout orders composed, on the fragment
     hb = vlib.harness_bin(ctx)
     rng = ctx.rng
     bw = gen.boundary_words()
